@@ -296,6 +296,15 @@ NOSAN void __sanitizer_cov_trace_pc_guard(uint32_t *guard) {
     }
     on_event();
 }
+NOSAN void __sanitizer_cov_trace_cmp1(uint8_t, uint8_t) { on_event(); }
+NOSAN void __sanitizer_cov_trace_cmp2(uint16_t, uint16_t) { on_event(); }
+NOSAN void __sanitizer_cov_trace_cmp4(uint32_t, uint32_t) { on_event(); }
+NOSAN void __sanitizer_cov_trace_cmp8(uint64_t, uint64_t) { on_event(); }
+NOSAN void __sanitizer_cov_trace_const_cmp1(uint8_t, uint8_t) { on_event(); }
+NOSAN void __sanitizer_cov_trace_const_cmp2(uint16_t, uint16_t) { on_event(); }
+NOSAN void __sanitizer_cov_trace_const_cmp4(uint32_t, uint32_t) { on_event(); }
+NOSAN void __sanitizer_cov_trace_const_cmp8(uint64_t, uint64_t) { on_event(); }
+NOSAN void __sanitizer_cov_trace_switch(uint64_t, uint64_t *) { on_event(); }
 NOSAN void __sanitizer_cov_load1(void *) { on_event(); }
 NOSAN void __sanitizer_cov_load2(void *) { on_event(); }
 NOSAN void __sanitizer_cov_load4(void *) { on_event(); }
@@ -384,6 +393,7 @@ uint32_t site_id(uintptr_t ra) {
 std::string site_name(uint32_t id) { return id < g_sites.size() ? g_sites[id].name : std::string("?"); }
 
 static inline bool should_fail(const Fault &f, uint32_t k) {
+    if (k >= 1 && k <= 64 && ((f.alloc_mask >> (k - 1)) & 1)) return true;
     if (!f.alloc_k) return false;
     if ((int)k == f.alloc_k || (int)k == f.alloc_k2) return true;
     return f.alloc_mode == 1 && (int)k >= f.alloc_k;
@@ -526,6 +536,92 @@ void __wrap_free(void *p) {
     on_event();
 }
 
+// ---- locks taken by library code. The unchanged library has none, but a change may add one. Under a serialising
+// scheduler the running task must never block in the kernel on a lock whose holder is parked, so lock operations are
+// simulated: a table of holders, and a task that needs a held lock hands the processor to the holder. The real lock
+// object is not used while a pass runs (only simulated tasks contend for it, one at a time).
+struct SimLock {
+    void *addr;
+    int owner;   // task id, -1 free
+    int count;   // recursion / reader count
+    int readers;
+};
+static std::vector<SimLock> g_locks;
+static SimLock &sim_lock_of(void *addr) {
+    for (auto &l : g_locks)
+        if (l.addr == addr) return l;
+    g_locks.push_back({addr, -1, 0, 0});
+    return g_locks.back();
+}
+static void lock_wait_for(Task *t, int owner) {
+    if (owner < 0 || owner >= (int)g_sim.tasks.size() || g_sim.tasks[owner]->state != T_RUNNABLE) {
+        fprintf(stderr, "sim: task %d waits for a lock whose holder (task %d) cannot run: deadlock in the code under test\n", t->id, owner);
+        if (g_crash_hook) g_crash_hook(-2);
+        _exit(4);
+    }
+    sim_switch_to(*t, owner);
+}
+static int sim_lock_acquire(void *addr, bool try_only, bool shared) {
+    Task *t = t_self;
+    on_event();
+    for (;;) {
+        SimLock &l = sim_lock_of(addr);
+        if (shared && l.owner < 0) { l.readers++; return 0; }
+        if (!shared && l.readers == 0 && (l.owner < 0 || l.owner == t->id)) { l.owner = t->id; l.count++; return 0; }
+        if (try_only) return EBUSY;
+        int holder = l.owner;
+        if (holder < 0) { // held by readers: let anybody else run
+            holder = lowest_runnable(t->id);
+        }
+        lock_wait_for(t, holder);
+    }
+}
+static int sim_lock_release(void *addr) {
+    SimLock &l = sim_lock_of(addr);
+    if (l.readers > 0 && l.owner < 0) l.readers--;
+    else if (l.count > 0 && --l.count == 0) l.owner = -1;
+    on_event();
+    return 0;
+}
+struct SimOnce { void *addr; int state; int owner; }; // 0 not started, 1 running, 2 done
+static std::vector<SimOnce> g_onces;
+static int sim_once(void *ctl, void (*fn)(void)) {
+    Task *t = t_self;
+    for (;;) {
+        SimOnce *o = nullptr;
+        for (auto &x : g_onces)
+            if (x.addr == ctl) o = &x;
+        if (!o) { g_onces.push_back({ctl, 0, -1}); o = &g_onces.back(); }
+        if (o->state == 2) return 0;
+        if (o->state == 0) {
+            o->state = 1;
+            o->owner = t->id;
+            size_t idx = o - g_onces.data();
+            fn();
+            g_onces[idx].state = 2;
+            return 0;
+        }
+        lock_wait_for(t, o->owner);
+    }
+}
+#define IN_SIM() (t_self != nullptr && g_sim.in_pass)
+extern "C" {
+int __wrap_pthread_mutex_lock(pthread_mutex_t *m) { return IN_SIM() ? sim_lock_acquire(m, false, false) : pthread_mutex_lock(m); }
+int __wrap_pthread_mutex_trylock(pthread_mutex_t *m) { return IN_SIM() ? sim_lock_acquire(m, true, false) : pthread_mutex_trylock(m); }
+int __wrap_pthread_mutex_unlock(pthread_mutex_t *m) { return IN_SIM() ? sim_lock_release(m) : pthread_mutex_unlock(m); }
+int __wrap_pthread_spin_lock(pthread_spinlock_t *m) { return IN_SIM() ? sim_lock_acquire((void *)m, false, false) : pthread_spin_lock(m); }
+int __wrap_pthread_spin_trylock(pthread_spinlock_t *m) { return IN_SIM() ? sim_lock_acquire((void *)m, true, false) : pthread_spin_trylock(m); }
+int __wrap_pthread_spin_unlock(pthread_spinlock_t *m) { return IN_SIM() ? sim_lock_release((void *)m) : pthread_spin_unlock(m); }
+int __wrap_pthread_rwlock_rdlock(pthread_rwlock_t *m) { return IN_SIM() ? sim_lock_acquire(m, false, true) : pthread_rwlock_rdlock(m); }
+int __wrap_pthread_rwlock_wrlock(pthread_rwlock_t *m) { return IN_SIM() ? sim_lock_acquire(m, false, false) : pthread_rwlock_wrlock(m); }
+int __wrap_pthread_rwlock_unlock(pthread_rwlock_t *m) { return IN_SIM() ? sim_lock_release(m) : pthread_rwlock_unlock(m); }
+int __wrap_pthread_once(pthread_once_t *c, void (*fn)(void)) { return IN_SIM() ? sim_once(c, fn) : pthread_once(c, fn); }
+int __wrap_mtx_lock(void *m) { return IN_SIM() ? (sim_lock_acquire(m, false, false), 0) : pthread_mutex_lock((pthread_mutex_t *)m); }
+int __wrap_mtx_trylock(void *m) { return IN_SIM() ? (sim_lock_acquire(m, true, false) ? 1 /*thrd_busy*/ : 0) : pthread_mutex_trylock((pthread_mutex_t *)m); }
+int __wrap_mtx_unlock(void *m) { return IN_SIM() ? sim_lock_release(m) : pthread_mutex_unlock((pthread_mutex_t *)m); }
+void __wrap_call_once(void *c, void (*fn)(void)) { if (IN_SIM()) sim_once(c, fn); else pthread_once((pthread_once_t *)c, fn); }
+}
+
 // non-reentrant libc entry points: referenced by the library only if a change
 // introduces them; their use is a yield point and is logged (C12 channel probe)
 char *__wrap_asctime(const struct tm *tm) { libc_probe(0); char *r = asctime(tm); on_event(); return r; }
@@ -633,6 +729,7 @@ char *__wrap_setlocale(int cat, const char *loc) { if (loc) libc_probe(7); else 
 
 // ------------------------------------------------------------------ handlers
 void (*g_handler_hook)(int hid, int code) = nullptr;
+void (*g_handler_after)(int hid) = nullptr;
 struct HandlerCall {
     int hid, kind, code;
     const char *msg;
@@ -660,6 +757,7 @@ void note_handler(int hid, int kind, const char *msg, int code) {
     HandlerCall c = {hid, kind, code, msg};
     alt_call(handler_body, &c);
     on_event();
+    if (g_handler_after) g_handler_after(hid); // on the library's stack: may call back into the library
 }
 extern "C" void sim_handler_log(const char *msg, void *, int error) { note_handler(1, 0, msg, error); }
 extern "C" void __wrap_ignore_handler_s(const char *msg, void *, int error) { note_handler(0, 0, msg, error); }
@@ -816,12 +914,13 @@ static void finish_digest(Task &t, OpResult &r) {
     r.arena_hash = hash_bytes(t.arena.base + ARENA_LO, ARENA_HI - ARENA_LO, 0);
     Hasher h;
     h.u64((uint64_t)r.ret);
-    h.u64((uint64_t)(int64_t)r.err);
     h.u64(r.arena_hash);
     h.u64(r.hcalls.size());
     for (auto &c : r.hcalls) { h.u64((uint64_t)c.hid); h.u64((uint64_t)(int64_t)c.code); h.u64(c.msgh); }
     h.str(r.out);
     h.u64(r.double_free);
+    r.digest_noerr = h.h;
+    h.u64((uint64_t)(int64_t)r.err);
     r.digest_core = h.h;
     h.u64(settings_fingerprint());
     r.digest = h.h;
@@ -853,6 +952,8 @@ static void run_one_op(Task &t, int i, const Op &op) {
     sim_log(LOG_RETURN, ((uint64_t)t.id << 32) | (uint32_t)i, r.digest);
 }
 
+static pthread_key_t g_exit_key;
+static void task_exit_dtor(void *arg);
 static void *task_main(void *arg) {
     Task *t = (Task *)arg;
     t_self = t;
@@ -868,12 +969,26 @@ static void *task_main(void *arg) {
     }
     t->cur_op = (int)tp.ops.size();
     t->ev = 0;
+    // The task ends when its thread has run its thread-exit handlers (TLS destructors the library may have
+    // registered): they still execute "as this task", serialised like everything else. The hand-off happens in
+    // task_exit_dtor, which glibc calls once before and - because it re-arms itself - once after all other
+    // thread-specific-data destructors.
+    t->exit_stage = 0;
+    pthread_setspecific(g_exit_key, t);
+    return nullptr;
+}
+static void task_exit_dtor(void *arg) {
+    Task *t = (Task *)arg;
+    if (t->exit_stage == 0) { // first round: this key was created first, so it is visited first; come back after the others
+        t->exit_stage = 1;
+        pthread_setspecific(g_exit_key, t);
+        return;
+    }
     t->state = T_DONE;
     for (Task *o : g_sim.tasks)
         if (o->state == T_BLOCKED && o->blocked_on == t->id) { o->state = T_RUNNABLE; o->blocked_on = -1; }
     t_self = nullptr;
     forced_switch(*t, true);
-    return nullptr;
 }
 
 static void start_thread(Task &t) {
@@ -920,6 +1035,8 @@ void run_pass(const Plan &plan, const PassCfg &cfg, Strategy &strat, PassResult 
     for (auto &a : g_live) free(a.p);
     g_live.clear();
     g_freed.clear();
+    g_locks.clear();
+    g_onces.clear();
     setlocale(LC_ALL, plan.locale ? "C.UTF-8" : "C");
     settings_reset();
     g_sim.plan = &plan;
@@ -1133,6 +1250,7 @@ void sim_global_init(const char *) {
     setenv("TZ", "UTC", 1);
     tzset();
     sem_init(&g_sim.main_sem, 0, 0);
+    pthread_key_create(&g_exit_key, task_exit_dtor);
     g_covhit = (uint8_t *)calloc(g_nguards + 2, 1);
     g_covpc = (uintptr_t *)calloc(g_nguards + 2, sizeof(uintptr_t));
     g_lib.init();
